@@ -50,21 +50,26 @@ def _call(g, req, rel):
         return tuple(p if has_z else p[:2])
 
     def seq(points):
-        if not rel:
-            return [tuple(p) for p in points]
+        # waypoints of mixed arity (added after seed C11h): a point whose height is the previous one's may be written (x, y) --
+        # "keeps its height" in absolute mode, "no offset in Z" in relative mode
+        flat = req.get("flat") or [False] * len(points)
         out, prev = [], s
-        for p in points:
-            out.append(tuple(p[i] - prev[i] for i in range(3)))
+        for p, f in zip(points, flat):
+            q = tuple(p) if not rel else tuple(p[i] - prev[i] for i in range(3))
+            out.append(q[:2] if f else q)
             prev = p
         return out
+    def centre(c):
+        off = tuple(req["off"]) if req.get("off") else (c[0] - s[0], c[1] - s[1])
+        # a 3-component centre offset whose Z is not zero (added after seed C10h): e.g. `centre_point - g.position` with the tool
+        # at another height; the height of the curve is the tool's (and the target's), the centre's Z plays no part
+        return off + (req["cz"],) if req.get("cz") else off
     if shape == "arc":
-        c = req["center"]
-        return t.arc(tgt(req["target"], req["hasz"]), tuple(req["off"]) if req.get("off") else (c[0] - s[0], c[1] - s[1]))
+        return t.arc(tgt(req["target"], req["hasz"]), centre(req["center"]))
     if shape == "arc_radius":
         return t.arc_radius(tgt(req["target"], req["hasz"]), req["radius"])
     if shape == "circle":
-        c = req["center"]
-        return t.circle(tuple(req["off"]) if req.get("off") else (c[0] - s[0], c[1] - s[1]))
+        return t.circle(centre(req["center"]))
     if shape == "helix":
         c = req["center"]
         return t.helix(tgt(req["target"], True), (c[0] - s[0], c[1] - s[1]), req["turns"])
@@ -164,7 +169,8 @@ def record(req):
     outH, lh = ("ok", []) if only else _run(req, res / 2.0, False)
     if req.get("rot") is not None:       # what the machine sees: every work-frame point of the request through the rotation
         req = dict(req, start=rotated(req["start"], req["rot"]), target=rotated(req["target"], req["rot"]),
-                   controls=[rotated(p, req["rot"]) for p in req.get("controls", [])])
+                   controls=[rotated(p, req["rot"]) for p in req.get("controls", [])],
+                   centers=[rotated(c, req["rot"]) for c in req.get("centers", [req.get("center", req["start"])])])
     ev = {"shape": req["shape"], "ccw": bool(req["ccw"]), "res": q(res, u), "start": q3(req["start"], u), "target": q3(req["target"], u),
           "centers": [q3(c, u) for c in req.get("centers", [req.get("center", req["start"])])], "r": q(req.get("r", 0.0), u),
           "turns": int(req.get("turns", 1)), "far": bool(req.get("far", False)), "len": q(req.get("len", 0.0), u),
@@ -217,6 +223,11 @@ def gen(rng, shape=None, allow_tiny=True):
     ccw = rng.random() < 0.5
     s = pt(rng) if rng.random() < 0.85 else [0.0, 0.0, 0.0]
     req = {"shape": shape, "res": res, "ccw": ccw, "start": s, "turns": 1, "warm": rng.random() < 0.3}
+    if shape in ("arc", "arc_radius", "circle", "helix") and rng.random() < 0.2:
+        # the curve traced in a work frame rotated about Z (added after seed C12h: a resolution "compensated" for the active
+        # transform): segment lengths, radii and sweeps are those of the request, seen through the rotation
+        req["rot"] = rng.choice([30.0, 45.0, 60.0, 90.0, 120.0, -45.0])
+        req["warm"] = False
     sgn = 1.0 if ccw else -1.0
     tiny = allow_tiny and shape in ("arc", "arc_radius", "helix") and rng.random() < 0.12
     if tiny:
@@ -263,6 +274,8 @@ def gen(rng, shape=None, allow_tiny=True):
             sweep = rng.uniform(0.15, 2 * math.pi - 0.15) if rng.random() < 0.85 else rng.choice([math.pi / 2, math.pi, 3 * math.pi / 2])
             a1 = a0 + sgn * sweep
             t = [c[0] + r * math.cos(a1), c[1] + r * math.sin(a1), s[2]]
+        if rng.random() < 0.25:
+            req["cz"] = rng.choice([-5.0, 2.5, round(rng.uniform(-8, 8), 2)]) or 1.0
         hasz = shape == "arc" and rng.random() < 0.4
         if hasz:
             # a target height of exactly 0 now and then (added after seed C11f: "no Z given" tested by truthiness)
@@ -363,6 +376,16 @@ def gen(rng, shape=None, allow_tiny=True):
             pts.append(p)
             prev = p
         req.update(target=pts[-1], controls=pts)
+        if not steep and rng.random() < 0.5:
+            # some waypoints stay at the height of the one before and are written with two components
+            flat, prev = [], s
+            for p in pts:
+                f = rng.random() < 0.5
+                if f:
+                    p[2] = prev[2]
+                flat.append(f)
+                prev = p
+            req.update(flat=flat, target=pts[-1])
     return req
 
 
